@@ -174,7 +174,7 @@ def run_shard(ctx: Ctx) -> None:
     from hypothesis import strategies as st
 
     strat = st.tuples(S.full_schema(cfg(ctx.tier)), st.lists(st.sampled_from(HISTORY_OPS), max_size=3))
-    hyp_run(ctx, strat, body, ctx.n(1200, 20000))
+    hyp_run(ctx, strat, body, ctx.n(2400, 20000))
 
 
 def replay(case: Dict[str, Any]) -> Optional[str]:
